@@ -7,7 +7,10 @@ import routing_gen as rg
 
 MLS = ("routing",)
 HARNESSES = ()
-THEOREMS = []
+THEOREMS = ["C09_ledger", "C09_only_addressee", "C09_only_addressee_any_state", "C09_refused", "C09_at_most_one",
+            "C09_no_reply_exactly_once_disconnect", "C09_no_reply_exactly_once_timeout", "C09_no_reply_only_for_open_calls",
+            "C09_no_slot_for_no_reply_flag", "C09_limit", "C09_limit_refuses",
+            "C09_only_addressee_refuted", "C09_second_error_refuted", "C09_no_reply_refuted"]
 
 NONTRIVIAL = {"reply-delivered", "reply-refused", "noreply-disconnect", "noreply-timeout", "limit-refused", "duplicate-serial-refused",
               "fd-refused", "call-or-signal-with-rserial-delivered"}
@@ -16,7 +19,8 @@ NONTRIVIAL = {"reply-delivered", "reply-refused", "noreply-disconnect", "noreply
 def gen_cases(tier, rnd):
     cases = [c for c in rg.scenarios() if c[1][0] == 1]
     cases += rc.load_corpus("C09")
-    n_plain, n_timed = (1600, 70) if tier == "quick" else (30000, 1200)
+    n_plain, n_timed = (1500, 110) if tier == "quick" else (30000, 1500)
+    cases += rg.enum_cases(3 if tier == "quick" else 4, 1, 2)
     for i in range(n_plain):
         cfg = (1, rnd.choice((1, 2, 2, 3, 3, 4, 50)), -1)
         cases.append(("gen%d" % i, cfg, rg.gen_history(rnd, cfg, "c09", rnd.randint(6, 18))))
@@ -43,7 +47,8 @@ def run(ctx):
                 "to force reuse, NO_REPLY_EXPECTED 15%%, unix fds 18%% of fd-capable senders), genuine / duplicate / wrong-serial / third-party / "
                 "to-third-party replies, calls and signals carrying a REPLY_SERIAL, disconnects biased to parties of outstanding calls, RequestName/"
                 "ReleaseName, max_replies_per_connection in {0,1,2,3,4,50}, reply_timeout infinite or %d ms with ticks of %d/%d ms; plus %d "
-                "hand-written boundary scenarios.  non-trivial = at least one step whose outcome is a delivered or refused reply, a NoReply, a limit "
+                "hand-written boundary scenarios and every sequence of 3 (thorough: 4) events over a 12-event alphabet (calls, genuine / forged / "
+                "misdirected / wrong-serial replies, disconnects) after three connects.  non-trivial = at least one step whose outcome is a delivered or refused reply, a NoReply, a limit "
                 "or duplicate-serial refusal; distinct = distinct (configuration, event list)" % (rg.TIMEOUT, rg.TICK_PART, rg.TICK_FULL, len([c for c in rg.scenarios() if c[1][0] == 1])),
         "samples": samples[:10], "input_distribution": r["dist"], "traces_validated_against_impl": len(cases) - r["tainted"],
         "steps_compared": r["steps"], "disagreements_checked": r["disagreements"], "timing_unusable": r["tainted"],
